@@ -183,28 +183,16 @@ func c02(e *Env) {
 		pairs := collidingPairs(e.Seed)
 		var adv, advTypes int64
 		for _, t := range types {
-			var ff *schema.Field
-			for i := range t.Fields {
-				if t.Fields[i].Kind == "fixstr" && t.Fields[i].N >= 8 && !t.Fields[i].Left && t.Fields[i].Pad != 'A' {
-					ff = &t.Fields[i]
-					break
-				}
-			}
+			ff := collisionField(t)
 			if ff == nil {
-				continue
-			}
-			isKey := false
-			for _, f := range t.Fields {
-				if f.Kind == "union" && f.Key == ff.Name {
-					isKey = true
-				}
-			}
-			if isKey {
 				continue
 			}
 			advTypes++
 			base := e.Gen(&gen.Opts{}, t.QName, "collision").Value(t)
 			for pi, pr := range pairs {
+				if len(pr[0]) > ff.N {
+					continue
+				}
 				for k, txt := range []string{pr[0], pr[1], pr[0]} {
 					v := val.Clone(base)
 					reflect.ValueOf(v).Elem().FieldByName(ff.Name).SetString(txt)
@@ -233,6 +221,31 @@ func c02(e *Env) {
 	r.Set("observations", feats.m)
 	r.Set("protocol_versions", map[string]string{"sse": "sse_bin_v0.57", "szse": "szse_bin_v1.29", "bjse": "bse_trade_bin_v0.9", "risk": "risk_v0.1.0", "sample": "sample"})
 	_ = gen.DefaultLens
+}
+
+// collisionField picks the fixed-text field of t the collision adversary writes to: right-padded, not padded
+// with a letter, not a union discriminator, at least 8 wide and preferably at least 16 (the 64-bit pairs).
+func collisionField(t *schema.Type) *schema.Field {
+	var ff *schema.Field
+	for i := range t.Fields {
+		f := &t.Fields[i]
+		if f.Kind != "fixstr" || f.N < 8 || f.Left || f.Pad == 'A' {
+			continue
+		}
+		isKey := false
+		for _, u := range t.Fields {
+			if u.Kind == "union" && u.Key == f.Name {
+				isKey = true
+			}
+		}
+		if isKey {
+			continue
+		}
+		if ff == nil || (ff.N < 16 && f.N > ff.N) {
+			ff = f
+		}
+	}
+	return ff
 }
 
 // collidingPairs finds, by birthday search over 8-character texts, pairs that collide under CRC-32/IEEE
@@ -277,6 +290,7 @@ func collidingPairs(seed int64) [][3]string {
 			}
 		}
 	}
+	out = append(out, verifiedFnv64Pairs()...)
 	return out
 }
 
